@@ -38,7 +38,7 @@ enum Kind {
     H_FREE,         // a slot, b releasing family (-1+1.. : 0 = same as allocating, 1..3 = family b-1), c entry point of the delete family (0 plain, 1 (file,int), 2 (file,size_t), 3 sized, 4 nothrow)
     H_REALLOC,      // a slot, c new size
     H_ENABLE, H_DISABLE, H_START, H_STOP, H_MARK,
-    H_STAGE_INC, H_STAGE_DEC, H_STAGE_FREE,
+    H_STAGE_INC /* a > 0: round trip of a stages */, H_STAGE_DEC, H_STAGE_FREE,
     H_CLEAR,        // a period
     H_QUERY,        // a period for the report (totals of all four periods are always compared)
     H_FLIP,         // a slot, b region (0 user, 1 guard, 2 padding), c index inside region, d value
@@ -319,7 +319,7 @@ struct Engine : public vf::Engine {
                 if (x < 38) { o.kind = H_ALLOC; o.a = (int64_t)w.below((uint64_t)nSlots); o.b = (int64_t)w.below(3); o.c = w.small(0, 200); o.phase = (int)w.below(3); o.s = siteFile((int)w.below(N_SITES)); }
                 else if (x < 62) { o.kind = H_FREE; o.a = (int64_t)w.below((uint64_t)nSlots); o.c = w.chance(1, 3) ? w.range(1, 4) : 0; }
                 else if (x < 70) { o.kind = H_REALLOC; o.a = (int64_t)w.below((uint64_t)nSlots); o.c = w.chance(1, 5) ? -1 : w.small(0, 200); o.s = siteFile((int)w.below(N_SITES)); }      // c = -1: to the block's current size
-                else if (x < 82) { static const int ks[] = { H_ENABLE, H_DISABLE, H_START, H_STOP, H_MARK, H_STAGE_INC, H_STAGE_DEC }; o.kind = ks[w.below(7)]; }
+                else if (x < 82) { static const int ks[] = { H_ENABLE, H_DISABLE, H_START, H_STOP, H_MARK, H_STAGE_INC, H_STAGE_DEC }; o.kind = ks[w.below(7)]; if (o.kind == H_STAGE_INC && w.chance(1, 6)) o.a = w.range(1, 600); }      // a > 0: a round trip of a further stages (past the 8-bit range) and back, nothing in between
                 else if (x < 85) o.kind = H_STAGE_FREE;
                 else if (x < 88) { o.kind = H_CLEAR; o.a = (int64_t)w.below(4); }
                 else if (x < 96) { o.kind = H_QUERY; o.a = (int64_t)w.below(4); o.b = (int64_t)w.chance(1, 3); }
@@ -726,7 +726,14 @@ struct Engine : public vf::Engine {
             case H_START: det.startChecking(); W.period = mem_leak_period_checking; W.diaCleanReport = true; W.diaMisuse = 0; W.lastReportText.clear(); W.lastReportValid = true; break;
             case H_STOP: det.stopChecking(); W.period = mem_leak_period_enabled; break;
             case H_MARK: det.markCheckingPeriodLeaksAsNonCheckingPeriod(); for (int i = 0; i < N_SLOTS; i++) if (W.slots[i].live && W.slots[i].period == mem_leak_period_checking) W.slots[i].period = mem_leak_period_enabled; break;
-            case H_STAGE_INC: if (W.stage < 250) { det.increaseAllocationStage(); W.stage++; } break;
+            case H_STAGE_INC:
+                if (o.a > 0) {      // enter a further stages and leave them again: nothing is allocated or released on the way, so every block is in the stage it was in and the current stage is the one before the trip
+                    for (int64_t k = 0; k < o.a; k++) det.increaseAllocationStage();
+                    for (int64_t k = 0; k < o.a; k++) det.decreaseAllocationStage();
+                    if (W.stage + o.a > 255) fired("stage_trip_past_255");
+                    break;
+                }
+                if (W.stage < 250) { det.increaseAllocationStage(); W.stage++; } break;
             case H_STAGE_DEC: if (W.stage > 0) { det.decreaseAllocationStage(); W.stage--; } break;
             case H_STAGE_FREE: {
                 clearBuffer(W);
